@@ -242,5 +242,52 @@ Theorem popFront_some q : WF q -> all_some (abs q) -> 0 < size q -> exists t, fs
 Proof.
   intros H A Hs. pose proof (popFront_spec q H) as P. pose proof (abs_length q) as L.
   destruct (abs q) as [|x r]; [simpl in L; lia|]. destruct P as (E & _).
-  inversion A as [|x' r' Hx Hr]; subst. destruct x as [t|]; [exists t; exact E|congruence].
+  inversion A as [|x' r' Hx Hr]. destruct x as [t|]; [exists t; exact E|congruence].
+Qed.
+
+(* ---------------------------------------------------------------- link to the concurrent model *)
+(* stealHalf on rings whose live windows hold the tickets lv / ld is the abstract [asteal] used by
+   the concurrent model (K = capacity of the destination ring). *)
+Theorem stealHalf_refines q d lv ld : WF q -> WF d -> abs q = map Some lv -> abs d = map Some ld ->
+  match stealHalf q d, asteal (cap d) lv ld with
+  | (o, q', d'), (o', lv', ld') => o = o' /\ abs q' = map Some lv' /\ abs d' = map Some ld' /\ WF q' /\ WF d' /\
+                                  cap q' = cap q /\ cap d' = cap d
+  end.
+Proof.
+  intros Hq Hd Aq Ad. pose proof (stealHalf_spec q d Hq Hd) as S.
+  pose proof (abs_length q) as Lq. pose proof (abs_length d) as Ld.
+  rewrite Aq, map_length in Lq. rewrite Ad, map_length in Ld.
+  destruct lv as [|h r]; simpl in Aq; rewrite Aq in S.
+  - rewrite S. simpl. splits; auto.
+  - destruct S as (mv & q' & d' & E & R & Dd & Lm & Wq & Wd & Cq & Cd). rewrite E.
+    unfold asteal. rewrite <- Lq, <- Ld in Lm.
+    set (m := Nat.min ((length (h :: r) + 1) / 2 - 1) (cap d - length ld)) in *.
+    assert (Hmv : mv = map Some (firstn m r) /\ abs q' = map Some (skipn m r)).
+    { rewrite <- firstn_map, <- skipn_map, R, <- Lm.
+      rewrite firstn_app, Nat.sub_diag, firstn_all, skipn_app, Nat.sub_diag, skipn_all. simpl.
+      rewrite app_nil_r. auto. }
+    destruct Hmv as [Hm Hq']. splits; auto.
+    rewrite Dd, Ad, Hm, map_app. reflexivity.
+Qed.
+
+(* pushBack / popFront / gpush / gpop at the ticket level *)
+Corollary pushBack_tokens q lv s : WF q -> abs q = map Some lv -> size q < cap q ->
+  abs (fst (pushBack q s)) = map Some (lv ++ [s]) /\ snd (pushBack q s) = true.
+Proof.
+  intros H A L. pose proof (pushBack_spec q s H) as P.
+  destruct (size q =? cap q) eqn:E; [apply Nat.eqb_eq in E; lia|].
+  destruct P as (P1 & P2 & _). rewrite P1, A, map_app. auto.
+Qed.
+
+Corollary gpush_tokens ic g lv s : WF g -> abs g = map Some lv -> abs (gpush ic g s) = map Some (lv ++ [s]).
+Proof. intros H A. destruct (gpush_spec ic g s H) as (P & _). rewrite P, A, map_app. reflexivity. Qed.
+
+Corollary popFront_tokens q lv : WF q -> abs q = map Some lv ->
+  match lv with
+  | [] => popFront q = (None, q)
+  | x :: r => fst (popFront q) = Some x /\ abs (snd (popFront q)) = map Some r
+  end.
+Proof.
+  intros H A. pose proof (popFront_spec q H) as P. rewrite A in P. destruct lv; simpl in P; [exact P|].
+  destruct P as (P1 & P2 & _). auto.
 Qed.
